@@ -156,6 +156,10 @@ func checkC13(p *Program, r *Result) {
 					r.violated("C13.c", fname, "store to package variable "+g.Name(), p.pos(in.Pos()), "package-level state is written at run time; independent writers/readers in one process would share it")
 					continue
 				}
+				if onlyReadThrough(in) {
+					r.held("C13.c", fname, construct, p.pos(in.Pos()), "element/field address used for loads only")
+					continue
+				}
 				r.violated("C13.c", fname, construct+" by address", p.pos(in.Pos()), "address of a package-level variable escapes into "+strings.SplitN(in.String(), "\n", 2)[0]+"; shared mutable state")
 			}
 		}
@@ -442,4 +446,41 @@ func resetLike(p *Program, fobj *types.Func) bool {
 		}
 	}
 	return true
+}
+
+// onlyReadThrough: in computes an element or field address (of a package variable) that is only ever loaded from.
+func onlyReadThrough(in ssa.Instruction) bool {
+	var ok func(v ssa.Value, depth int) bool
+	ok = func(v ssa.Value, depth int) bool {
+		if depth > 4 || v.Referrers() == nil {
+			return false
+		}
+		for _, ref := range *v.Referrers() {
+			switch x := ref.(type) {
+			case *ssa.UnOp:
+				if x.Op != token.MUL {
+					return false
+				}
+			case *ssa.IndexAddr:
+				if x.X != v || !ok(x, depth+1) {
+					return false
+				}
+			case *ssa.FieldAddr:
+				if !ok(x, depth+1) {
+					return false
+				}
+			case *ssa.DebugRef:
+			default:
+				return false
+			}
+		}
+		return true
+	}
+	switch x := in.(type) {
+	case *ssa.IndexAddr:
+		return ok(x, 0)
+	case *ssa.FieldAddr:
+		return ok(x, 0)
+	}
+	return false
 }
